@@ -4,9 +4,9 @@ package rules
 import (
 	"fmt"
 	"os"
-	"time"
 	"runtime/debug"
 	"sort"
+	"time"
 
 	"f1verif/internal/core"
 )
